@@ -527,7 +527,7 @@ class C27(Check):
     level_note = "Trusted: TLC, Json module, BV (BV_MC-checked), the harness's integer (de)serialisation."
     technique = "TLA+ encoding specification as oracle; exhaustive boundary inputs; TLC trace validation"
     trusted = ["Go harness: 8-byte integer transport", "TLC, CommunityModules Json"]
-    rule = ("NewConstUint/NewConstInt/ConstFrom*: Go types u8..u64, i8..i64 x widths {1,2,3,4,5,7,8,9,16} x values: every "
+    rule = ("NewConstUint/NewConstInt/ConstFrom*: Go types u8..u64, i8..i64 x widths {1,2,3,4,5,7,8,9,16,31,32,33,64,128,255} x values: every "
             "boundary of every width inside the type's range (0, +-1, 2^(8k-1)-1, 2^(8k-1), 2^(8k)-1, 2^(8k), their "
             "negations, +-1 around) plus all 256 one-byte values and seeded random; ConstUint[T] read-back and WithWidth on "
             "constants of widths 1..16 with zero / non-zero upper bytes; NewConst aliasing (source slice overwritten after "
@@ -552,7 +552,7 @@ class C27(Check):
                     cand.add(base + d)
                     cand.add(-(base + d))
         cand |= set(range(256)) | {-x for x in range(256)}
-        widths = [1, 2, 3, 4, 5, 7, 8, 9, 16]
+        widths = [1, 2, 3, 4, 5, 7, 8, 9, 16, 31, 32, 33, 64, 128, 255]       # 8 * w passes 256 at 32 bytes
         for t, (lo, hi) in types.items():
             vals = sorted(v for v in cand if lo <= v <= hi)
             vals += [rng.randrange(lo, hi + 1) for _ in range(20 if tier == "quick" else 300)]
